@@ -68,6 +68,308 @@ theorem same_arg_same_size (req L : Nat) :
     (req = 0 → repSize req L = L) ∧ (L ≤ req → repSize req L = L) ∧ (req ≠ 0 → req ≤ L → repSize req L = req) := by
   refine ⟨fun L' e => by rw [e], ?_, ?_, ?_, ?_⟩ <;> intros <;> simp only [repSize] <;> split <;> omega
 
+/-! ## one memory per name -/
+
+/-- Handles of one name opened while the segment exists — by any two threads of the same or of
+    different processes, with any size arguments, with or without a lock semaphore left — are mapped
+    to the SAME object, the one the name is bound to; a byte stored through either at any offset
+    below both reported sizes is the byte loaded through the other. -/
+theorem same_name_same_bytes (g : G) (t1 t2 : Tid) (h1 h2 : Hid) (k : ShmKey) (r1 r2 : Nat) (s : SegId)
+    (off : Nat) (b : UInt8)
+    (hk : g.os.shmNames k = some s) (hL : (g.os.segs s).bytes.length ≠ 0)
+    (i1 : Idle g t1) (i2 : Idle g t2) (hh1 : g.hs h1 = none) (hh2 : g.hs h2 = none) (hne : h1 ≠ h2) :
+    let g2 := (g.call t1 (.newShm h1 k r1 false)).call t2 (.newShm h2 k r2 false)
+    segOf g2 h1 = some s ∧ segOf g2 h2 = some s ∧
+    (off < repSize r1 (g.os.segs s).bytes.length → off < repSize r2 (g.os.segs s).bytes.length →
+      ((g2.call t1 (.wr h1 off b)).call t2 (.rd h2 off)).ret t2 = some (.byte b) ∧
+      ((g2.call t2 (.wr h2 off b)).call t1 (.rd h1 off)).ret t1 = some (.byte b)) := by
+  obtain ⟨y1, o1⟩ := follower_opened g t1 h1 k r1 false s i1 hh1 hk hL
+  have hco := call_calls_other g t1 (.newShm h1 k r1 false) [] t2
+  generalize hg1 : g.call t1 (.newShm h1 k r1 false) = g1 at o1 hco
+  have i2' : Idle g1 t2 := by
+    refine ⟨?_, ?_⟩
+    · rw [o1.procs, o1.pidOf]; dsimp only; split
+      · simpa [Proc.afterNew] using i1.alive
+      · exact i2.alive
+    · by_cases e : t2 = t1
+      · subst e; exact o1.idle
+      · rw [hco e]; exact i2.idle
+  have hk1 : g1.os.shmNames k = some s := by rw [o1.shmNames]; exact hk
+  have hL1 : (g1.os.segs s).bytes.length ≠ 0 := by rw [o1.segs]; exact hL
+  have hh2' : g1.hs h2 = none := by rw [o1.hs]; simp [Ne.symm hne, hh2]
+  obtain ⟨y2, o2⟩ := follower_opened g1 t2 h2 k r2 false s i2' hh2' hk1 hL1
+  have hco2 := call_calls_other g1 t2 (.newShm h2 k r2 false) [] t1
+  generalize hg2 : g1.call t2 (.newShm h2 k r2 false) = g2 at o2 hco2
+  -- the two handles and their mappings in g2
+  have e1 : g2.hs h1 = some (g2.pidOf t1, .shm y1) := by rw [o2.hs, o2.pidOf, o1.pidOf, o1.hs]; simp [hne]
+  have e2 : g2.hs h2 = some (g2.pidOf t2, .shm y2) := by rw [o2.hs, o2.pidOf]; simp
+  have segL : (g2.os.segs s).bytes.length = (g.os.segs s).bytes.length := by rw [o2.segs, o1.segs]
+  have m2 : findMap (g2.os.procs (g2.pidOf t2)) y2.addr =
+      some ⟨(g1.os.procs (g1.pidOf t2)).nextAddr, s, 0, repSize r2 (g1.os.segs s).bytes.length,
+        hasFlag shmMmapProtRW PROT_WRITE, hasFlag shmMmapFlags MAP_SHARED⟩ := by
+    rw [o2.procs, o2.pidOf, o2.addr]; simp [findMap_afterNew_head]
+  have m1 : findMap (g2.os.procs (g2.pidOf t1)) y1.addr =
+      some ⟨(g.os.procs (g.pidOf t1)).nextAddr, s, 0, repSize r1 (g.os.segs s).bytes.length,
+        hasFlag shmMmapProtRW PROT_WRITE, hasFlag shmMmapFlags MAP_SHARED⟩ := by
+    have hp1 : g1.os.procs (g.pidOf t1) = (g.os.procs (g.pidOf t1)).afterNew s (repSize r1 (g.os.segs s).bytes.length) false := by
+      rw [o1.procs]; simp
+    rw [o2.procs, o2.pidOf, o1.pidOf, o1.addr]
+    dsimp only
+    split
+    · rename_i e
+      rw [← e, hp1, findMap_afterNew_old _ _ _ _ _ (by simp only [Proc.afterNew]; omega), findMap_afterNew_head]; simp
+    · rw [hp1, findMap_afterNew_head]; simp
+  have i1g2 : Idle g2 t1 := by
+    refine ⟨?_, ?_⟩
+    · rw [o2.procs, o2.pidOf]; dsimp only; split
+      · simpa [Proc.afterNew] using i2'.alive
+      · rw [o1.procs, o1.pidOf]; dsimp only; simpa [Proc.afterNew] using i1.alive
+    · by_cases e : t1 = t2
+      · subst e; exact o2.idle
+      · rw [hco2 e]; exact o1.idle
+  have i2g2 : Idle g2 t2 := by
+    refine ⟨?_, o2.idle⟩
+    rw [o2.procs, o2.pidOf]; dsimp only; simpa [Proc.afterNew] using i2'.alive
+  simp only
+  refine ⟨?_, ?_, ?_⟩
+  · simp [segOf, e1, m1]
+  · simp [segOf, e2, m2]
+  · intro l1 l2
+    have L1 : (g1.os.segs s).bytes.length = (g.os.segs s).bytes.length := by rw [o1.segs]
+    have lt1 : off < (g.os.segs s).bytes.length := Nat.lt_of_lt_of_le l1 (repSize_le _ _)
+    constructor
+    · exact write_then_read g2 t1 t2 h1 h2 y1 y2 _ _ off b i1g2 i2g2 e1 e2 m1 m2 rfl rfl rfl l1 (by rw [L1]; exact l2)
+        rwWritable mapShared (by rw [segL]; exact lt1)
+    · exact write_then_read g2 t2 t1 h2 h1 y2 y1 _ _ off b i2g2 i1g2 e2 e1 m2 m1 rfl rfl rfl (by rw [L1]; exact l2) l1
+        rwWritable mapShared (by rw [segL]; exact lt1)
+
+/-- every offset below `p_shm_get_size` is inside the handle's mapping and inside the object:
+    a load there never faults — for the creator (zero bytes) and for any follower -/
+theorem no_fault_below_size (g : G) (t : Tid) (h : Hid) (k : ShmKey) (req : Nat) (ro : Bool)
+    (hi : Idle g t) (hh : g.hs h = none)
+    (hok : (g.os.shmNames k = none ∧ req ≠ 0) ∨ (∃ s, g.os.shmNames k = some s ∧ (g.os.segs s).bytes.length ≠ 0)) :
+    let g' := g.call t (.newShm h k req ro)
+    ∃ y, g'.hs h = some (g.pidOf t, .shm y) ∧ ∀ off, off < y.size → ∃ b, g'.os.load (g.pidOf t) y.addr off = .val b := by
+  simp only
+  rcases hok with ⟨hk, hs⟩ | ⟨s, hk, hL⟩
+  · have common : ∀ os' : OS, os'.procs (g.pidOf t) = (g.os.procs (g.pidOf t)).afterNew g.os.nextSeg req ro →
+        (os'.segs g.os.nextSeg).bytes = List.replicate req 0 →
+        ∀ off, off < (creatorHandle g t k req ro).size → ∃ b, os'.load (g.pidOf t) (creatorHandle g t k req ro).addr off = .val b := by
+      intro os' hp hb off ho
+      have hlen : off < (os'.segs g.os.nextSeg).bytes.length := by rw [hb]; simpa [creatorHandle] using ho
+      exact ⟨_, load_afterNew os' (g.pidOf t) _ _ _ _ off hp (by simpa [creatorHandle] using ho) hlen⟩
+    cases hl : g.os.semNames (.lock k) with
+    | none =>
+      have c := call_newShm_fresh g t h k req ro hi hh hk hl hs
+      refine ⟨creatorHandle g t k req ro, by rw [c.2.1]; simp, ?_⟩
+      rw [c.1]
+      exact common _ (by simp [OS.semCreate, OS.afterShmNew, OS.shmCreate]) (by simp [OS.semCreate, OS.afterShmNew, OS.shmCreate])
+    | some ol =>
+      have c := call_newShm_fresh_stale_lock g t h k req ro ol hi hh hk hl hs
+      refine ⟨creatorHandle g t k req ro, by rw [c.2.1]; simp, ?_⟩
+      rw [c.1]
+      exact common _ (by simp [OS.semCreate, OS.semRemove, OS.afterShmNew, OS.shmCreate])
+        (by simp [OS.semCreate, OS.semRemove, OS.afterShmNew, OS.shmCreate])
+  · obtain ⟨y, o⟩ := follower_opened g t h k req ro s hi hh hk hL
+    refine ⟨y, by rw [o.hs]; simp, ?_⟩
+    intro off ho
+    rw [o.size] at ho
+    have hlen : off < ((g.call t (.newShm h k req ro)).os.segs s).bytes.length := by
+      rw [o.segs]; exact Nat.lt_of_lt_of_le ho (repSize_le _ _)
+    rw [o.addr]
+    exact ⟨_, load_afterNew _ (g.pidOf t) _ s _ ro off (by rw [o.procs]; simp) ho hlen⟩
+
+/-! ## free -/
+
+/-- `p_shm_free` removes exactly the mapping `p_shm_new` created — creator or follower, whatever the
+    size argument: the process's mappings are those it had before.  (False of the code before fix F5:
+    a follower with a smaller size argument mapped the whole segment and unmapped only the clamped size.)
+    `hfresh`: addresses are handed out increasingly (no older mapping sits at the next address). -/
+theorem unmap_exact (g : G) (t : Tid) (h : Hid) (k : ShmKey) (req : Nat)
+    (hi : Idle g t) (hh : g.hs h = none)
+    (hok : (g.os.shmNames k = none ∧ req ≠ 0 ∧ g.os.semNames (.lock k) = none) ∨
+           (∃ s ol, g.os.shmNames k = some s ∧ (g.os.segs s).bytes.length ≠ 0 ∧ g.os.semNames (.lock k) = some ol))
+    (hfresh : ∀ m ∈ (g.os.procs (g.pidOf t)).maps, m.addr ≠ (g.os.procs (g.pidOf t)).nextAddr) :
+    let g2 := (g.call t (.newShm h k req false)).call t (.free h)
+    (g2.os.procs (g.pidOf t)).maps = (g.os.procs (g.pidOf t)).maps ∧ g2.hs h = none := by
+  simp only
+  rcases hok with ⟨hk, hs, hl⟩ | ⟨s, ol, hk, hL, hl⟩
+  · have c := call_newShm_fresh g t h k req false hi hh hk hl hs
+    generalize hg1 : g.call t (.newShm h k req false) = g1 at c
+    have i1 : Idle g1 t := ⟨by rw [c.1, c.2.2.2]; simpa [OS.semCreate, OS.afterShmNew, OS.shmCreate, Proc.afterNew] using hi.alive, c.2.2.1⟩
+    have e : g1.hs h = some (g1.pidOf t, .shm (creatorHandle g t k req false)) := by rw [c.2.1, c.2.2.2]; simp
+    have f := call_free_shm_owner g1 t h (creatorHandle g t k req false) g.os.nextSeg g.os.nextObj i1 e rfl rfl
+      (by rw [c.1]; simp [OS.semCreate, OS.afterShmNew, OS.shmCreate, creatorHandle])
+      (by rw [c.1]; simp [OS.semCreate, OS.afterShmNew, OS.shmCreate, creatorHandle])
+      (by simpa [creatorHandle] using hs)
+    refine ⟨?_, by rw [f.2.1]; simp⟩
+    rw [f.1, c.2.2.2, c.1]
+    simp only [OS.semRemove, OS.shmRemove, OS.afterMunmap, OS.semCreate, OS.afterShmNew, OS.shmCreate, if_true, creatorHandle]
+    exact munmapF_afterNew _ _ _ _ hfresh
+  · obtain ⟨y, o⟩ := follower_opened g t h k req false s hi hh hk hL
+    have c := call_newShm_existing g t h k req false s ol hi hh hk hl hL
+    generalize hg1 : g.call t (.newShm h k req false) = g1 at c o
+    have i1 : Idle g1 t := ⟨by rw [c.1, c.2.2.2]; simpa [OS.afterShmNew, Proc.afterNew] using hi.alive, c.2.2.1⟩
+    have e : g1.hs h = some (g1.pidOf t, .shm (followerHandle g t k req (g.os.segs s).bytes.length false false ol)) := by
+      rw [c.2.1, c.2.2.2]; simp
+    have f := call_free_shm_plain g1 t h _ i1 e rfl rfl (by simpa [followerHandle] using repSize_ne_zero req _ hL)
+    refine ⟨?_, by rw [f.2.1]; simp⟩
+    rw [f.1, c.2.2.2, c.1]
+    simp only [OS.afterMunmap, OS.afterShmNew, if_true, followerHandle]
+    exact munmapF_afterNew _ _ _ _ hfresh
+
+/-- after an owner (take_ownership) frees its handle the segment name and its lock are gone and the
+    owner's mapping is unmapped; the next `p_shm_new` yields a FRESH segment (id = the allocation
+    counter, never used before), zero-filled, of exactly the newly requested size, with a fresh lock
+    of value 1 — old contents, old size and old lock state play no role -/
+theorem owner_free_removes (g : G) (t t' : Tid) (h h' : Hid) (y : PShm) (s : SegId) (ol : ObjId) (size' : Nat) (ro' : Bool)
+    (hi : Idle g t) (hh : g.hs h = some (g.pidOf t, .shm y))
+    (hk : g.os.shmNames y.key = some s) (hlk : y.sem.key = .lock y.key) (hl : g.os.semNames (.lock y.key) = some ol)
+    (hs : y.size ≠ 0) (hs' : size' ≠ 0) :
+    let g2 := (g.call t (.own h)).call t (.free h)
+    g2.os.shmNames y.key = none ∧ g2.os.semNames (.lock y.key) = none ∧ g2.hs h = none ∧
+    (g2.os.procs (g.pidOf t)).maps = (munmapF (g.os.procs (g.pidOf t)) y.addr y.size).maps ∧
+    g2.calls t = none ∧ g2.pidOf = g.pidOf ∧ (∀ q, (g2.os.procs q).alive = (g.os.procs q).alive) ∧
+    (∀ x, x ≠ h → g2.hs x = g.hs x) ∧
+    (Idle g2 t' → g2.hs h' = none →
+      ∃ y', (g2.call t' (.newShm h' y.key size' ro')).hs h' = some (g2.pidOf t', .shm y') ∧ y'.size = size' ∧
+        y'.created = true ∧ (g2.call t' (.newShm h' y.key size' ro')).os.shmNames y.key = some g.os.nextSeg ∧
+        ((g2.call t' (.newShm h' y.key size' ro')).os.segs g.os.nextSeg).bytes = List.replicate size' 0 ∧
+        (g2.call t' (.newShm h' y.key size' ro')).os.semNames (.lock y.key) = some y'.sem.obj ∧
+        ((g2.call t' (.newShm h' y.key size' ro')).os.sems y'.sem.obj).value = 1) := by
+  have o := call_own_shm g t h y hi hh
+  generalize hg1 : g.call t (.own h) = g1 at o
+  have i1 : Idle g1 t := ⟨by rw [o.1, o.2.2.2]; exact hi.alive, o.2.2.1⟩
+  have e1 : g1.hs h = some (g1.pidOf t, .shm { y with created := true, sem := { y.sem with created := true } }) := by
+    rw [o.2.1, o.2.2.2]; simp
+  have f := call_free_shm_owner g1 t h _ s ol i1 e1 rfl rfl (by rw [o.1]; exact hk) (by rw [o.1]; simpa [hlk] using hl) hs
+  generalize hg2 : g1.call t (.free h) = g2 at f
+  have n2 : g2.os.shmNames y.key = none := by rw [f.1]; simp [OS.semRemove, OS.shmRemove]
+  have l2 : g2.os.semNames (.lock y.key) = none := by rw [f.1]; simp [OS.semRemove, hlk]
+  have ns : g2.os.nextSeg = g.os.nextSeg := by rw [f.1, o.1]; rfl
+  simp only
+  refine ⟨n2, l2, by rw [f.2.1]; simp, ?_, f.2.2.1, by rw [f.2.2.2, o.2.2.2], ?_, ?_, ?_⟩
+  · rw [f.1, o.2.2.2, o.1]; simp [OS.semRemove, OS.shmRemove, OS.afterMunmap]
+  · intro q
+    rw [f.1, o.2.2.2, o.1]
+    simp only [OS.semRemove, OS.shmRemove, OS.afterMunmap]
+    split
+    · rename_i e; rw [e]; simp [munmapF]
+    · rfl
+  · intro x hx
+    rw [f.2.1, o.2.1]; simp [hx]
+  · intro i2 hh2
+    have c := call_newShm_fresh g2 t' h' y.key size' ro' i2 hh2 n2 l2 hs'
+    refine ⟨creatorHandle g2 t' y.key size' ro', by rw [c.2.1]; simp, rfl, rfl, ?_, ?_, ?_, ?_⟩ <;>
+      (rw [c.1]; simp [OS.semCreate, OS.afterShmNew, OS.shmCreate, creatorHandle, ns])
+
+/-! ## crash recovery -/
+
+/-- the documented recovery: `p_shm_new`, take ownership, `p_shm_free`, `p_shm_new` again -/
+def recoverShm (g : G) (t : Tid) (h1 h2 : Hid) (k : ShmKey) (sz sz' : Nat) : G :=
+  (((g.call t (.newShm h1 k sz false)).call t (.own h1)).call t (.free h1)).call t (.newShm h2 k sz' false)
+
+/-- the state after thread `tc` has made `j` system calls of the library call `op` and its process is SIGKILLed -/
+def crashAt (g : G) (tc : Tid) (op : Op) (j : Nat) : G :=
+  ((List.replicate j (Action.step tc false)).foldl exec (g.start tc op)).kill (g.pidOf tc)
+
+/-
+  FULL STATEMENT (false of the code):
+
+  theorem crash_recoverable_shm (g) (t h1 h2 k sz sz') (Idle g t) … :
+      the recovery sequence from EVERY state g ends with a fresh segment of size sz' and a fresh lock of value 1
+
+  It fails exactly for the states in which the name is bound to a segment of size 0 — what a creator
+  killed between `shm_open (O_CREAT|O_EXCL)` and `ftruncate` leaves behind (crash point 1 of `p_shm_new`):
+  `p_shm_new` then fails in `mmap` (EINVAL) for every size argument, so the recovery cannot start and the
+  name stays (`crash_recoverable_shm_false`).  The `_partial` theorem excludes exactly those states (`hz`).
+-/
+
+/-- From every state in which the name is not bound to a zero-size segment — in particular after a
+    SIGKILL of any process between any two system calls of `p_shm_new` (other than crash point 1 of a
+    creator), `p_shm_free`, lock or unlock, with the lock held or not, lock semaphore present or not —
+    the documented sequence ends with the name bound to a fresh zero-filled segment of the newly
+    requested size and a fresh lock of value 1. -/
+theorem crash_recoverable_shm_partial (g : G) (t : Tid) (h1 h2 : Hid) (k : ShmKey) (sz sz' : Nat)
+    (hi : Idle g t) (hh1 : g.hs h1 = none) (hh2 : g.hs h2 = none) (hne : h1 ≠ h2) (hs : sz ≠ 0) (hs' : sz' ≠ 0)
+    (hz : ∀ s, g.os.shmNames k = some s → (g.os.segs s).bytes.length ≠ 0) :
+    let g4 := recoverShm g t h1 h2 k sz sz'
+    ∃ y' snew, g4.hs h2 = some (g.pidOf t, .shm y') ∧ y'.size = sz' ∧ y'.created = true ∧
+      g4.os.shmNames k = some snew ∧ (g4.os.segs snew).bytes = List.replicate sz' 0 ∧
+      g4.os.semNames (.lock k) = some y'.sem.obj ∧ (g4.os.sems y'.sem.obj).value = 1 := by
+  -- step 1: whatever is left of the name, `p_shm_new` succeeds and afterwards segment and lock names are bound
+  have s1 : ∃ y s1 ol1, (g.call t (.newShm h1 k sz false)).hs = (fun h' => if h' = h1 then some (g.pidOf t, .shm y) else g.hs h') ∧
+      (g.call t (.newShm h1 k sz false)).os.shmNames k = some s1 ∧
+      (g.call t (.newShm h1 k sz false)).os.semNames (.lock k) = some ol1 ∧ y.key = k ∧ y.sem.key = .lock k ∧ y.size ≠ 0 ∧
+      (g.call t (.newShm h1 k sz false)).calls t = none ∧ (g.call t (.newShm h1 k sz false)).pidOf = g.pidOf ∧
+      ((g.call t (.newShm h1 k sz false)).os.procs (g.pidOf t)).alive = true := by
+    cases hk : g.os.shmNames k with
+    | none =>
+      cases hl : g.os.semNames (.lock k) with
+      | none =>
+        have c := call_newShm_fresh g t h1 k sz false hi hh1 hk hl hs
+        exact ⟨_, g.os.nextSeg, g.os.nextObj, c.2.1, by rw [c.1]; simp [OS.semCreate, OS.afterShmNew, OS.shmCreate],
+          by rw [c.1]; simp [OS.semCreate, OS.afterShmNew, OS.shmCreate], rfl, rfl, hs, c.2.2.1, c.2.2.2,
+          by rw [c.1]; simpa [OS.semCreate, OS.afterShmNew, OS.shmCreate, Proc.afterNew] using hi.alive⟩
+      | some ol =>
+        have c := call_newShm_fresh_stale_lock g t h1 k sz false ol hi hh1 hk hl hs
+        exact ⟨_, g.os.nextSeg, g.os.nextObj, c.2.1, by rw [c.1]; simp [OS.semCreate, OS.semRemove, OS.afterShmNew, OS.shmCreate],
+          by rw [c.1]; simp [OS.semCreate, OS.semRemove, OS.afterShmNew, OS.shmCreate], rfl, rfl, hs, c.2.2.1, c.2.2.2,
+          by rw [c.1]; simpa [OS.semCreate, OS.semRemove, OS.afterShmNew, OS.shmCreate, Proc.afterNew] using hi.alive⟩
+    | some s =>
+      obtain ⟨y, o⟩ := follower_opened g t h1 k sz false s hi hh1 hk (hz s hk)
+      exact ⟨y, s, y.sem.obj, o.hs, by rw [o.shmNames]; exact hk, o.lock, o.key, o.lockKey,
+        by rw [o.size]; exact repSize_ne_zero _ _ (hz s hk), o.idle, o.pidOf,
+        by rw [o.procs]; simpa [Proc.afterNew] using hi.alive⟩
+  obtain ⟨y, sg, ol1, hs1, n1, l1, yk, ylk, ysz, c1, p1, a1⟩ := s1
+  generalize hg1 : g.call t (.newShm h1 k sz false) = g1 at hs1 n1 l1 c1 p1 a1
+  have i1 : Idle g1 t := ⟨by rw [p1]; exact a1, c1⟩
+  have e1 : g1.hs h1 = some (g1.pidOf t, .shm y) := by rw [hs1, p1]; simp
+  -- steps 2–4
+  have r := owner_free_removes g1 t t h1 h2 y sg ol1 sz' false i1 e1 (by rw [yk]; exact n1) (by rw [ylk, yk])
+    (by rw [yk]; exact l1) ysz hs'
+  simp only at r
+  obtain ⟨_, _, _, _, c3, p3, al3, hs3, fin⟩ := r
+  have i3 : Idle ((g1.call t (.own h1)).call t (.free h1)) t := ⟨by rw [p3, al3]; exact i1.alive, c3⟩
+  have hh3 : ((g1.call t (.own h1)).call t (.free h1)).hs h2 = none := by
+    rw [hs3 h2 (Ne.symm hne), hs1]; simp [Ne.symm hne, hh2]
+  obtain ⟨y', f1, f2, f3, f4, f5, f6, f7⟩ := fin i3 hh3
+  simp only [recoverShm, hg1]
+  rw [yk] at f1 f4 f5 f6 f7
+  exact ⟨y', g1.os.nextSeg, by rw [f1, p3, p1], f2, f3, f4, f5, f6, f7⟩
+
+/-- the crash point that cannot be recovered, on the model: process 0 is killed after the first
+    system call of `p_shm_new` (name bound, size 0); `p_shm_new` by process 1 then fails with EINVAL
+    for any size argument and the name is still there afterwards -/
+def zeroSegState : G := crashAt (G.init id) 0 (.newShm 0 0 4096 false) 1
+
+set_option maxRecDepth 100000 in
+theorem crash_recoverable_shm_false :
+    (zeroSegState.os.shmNames 0).isSome = true ∧
+    ((zeroSegState.call 1 (.newShm 1 0 4096 false)).ret 1 = some (.fail .EINVAL)) ∧
+    ((zeroSegState.call 1 (.newShm 1 0 0 false)).ret 1 = some (.fail .EINVAL)) ∧
+    ((zeroSegState.call 1 (.newShm 1 0 4096 false)).hs 1 = none) ∧
+    ((zeroSegState.call 1 (.newShm 1 0 4096 false)).os.shmNames 0).isSome = true := by decide
+
+/-- the hypothesis `hz` of the partial theorem, as a computable check -/
+def nonZeroIfBound (g : G) (k : ShmKey) : Bool :=
+  match g.os.shmNames k with
+  | some s => decide ((g.os.segs s).bytes.length ≠ 0)
+  | none => true
+
+theorem nonZeroIfBound_spec (g : G) (k : ShmKey) (h : nonZeroIfBound g k = true) :
+    ∀ s, g.os.shmNames k = some s → (g.os.segs s).bytes.length ≠ 0 := by
+  intro s hs
+  simp only [nonZeroIfBound, hs, decide_eq_true_eq] at h
+  exact h
+
+set_option maxRecDepth 100000 in
+/-- every OTHER crash point of a first creation (kill after 0, 2, 3, 4, 5 system calls, or after the
+    call has returned) satisfies that hypothesis, crash point 1 does not -/
+theorem crash_points_of_creation :
+    ([0, 2, 3, 4, 5, 6].all fun j => nonZeroIfBound (crashAt (G.init id) 0 (.newShm 0 0 64 false) j) 0) = true ∧
+    nonZeroIfBound (crashAt (G.init id) 0 (.newShm 0 0 64 false) 1) 0 = false := by decide
+
 /-! ## EINTR (cited by C19) -/
 
 theorem shm_lock_eintr_transparent (g : G) (t : Tid) (h : Hid) (script : List Nat) :
@@ -268,5 +570,37 @@ theorem first_open_race_partial (s : List Bool) (h5 : s.count true = 5) (h7 : s.
   rw [h5, hlen] at hm
   have := List.all_eq_true.mp race_enumerated s hm
   simpa [hw] using this
+
+/-! ## non-vacuity -/
+
+/-- a state with a live segment: process 0 has created name 0 with 64 bytes -/
+def demo : G := (G.init id).call 0 (.newShm 0 0 64 false)
+
+set_option maxRecDepth 100000 in
+/-- hypotheses of `same_name_same_bytes`, `follower_size`, `no_fault_below_size`, `unmap_exact`
+    (follower case), `owner_free_removes`, `crash_recoverable_shm_partial`, `lock_is_mutex` hold in `demo` -/
+example :
+    demo.os.shmNames 0 = some 0 ∧ (demo.os.segs 0).bytes.length = 64 ∧ demo.os.semNames (.lock 0) = some 0 ∧
+    (demo.os.sems 0).value = 1 ∧ demo.os.nextObj = 1 ∧
+    (demo.os.procs (demo.pidOf 1)).alive = true ∧ demo.calls 1 = none ∧ demo.calls 2 = none ∧
+    demo.hs 1 = none ∧ demo.hs 2 = none ∧ nonZeroIfBound demo 0 = true ∧
+    (demo.os.procs (demo.pidOf 1)).maps = [] ∧
+    demo.hs 0 = some (0, .shm ⟨true, 0, 1, 64, ⟨true, .lock 0, 0, .create, 1⟩, false⟩) := by decide
+
+/-- hypotheses of `creator_size_exact` / `creation_establishes_lock` / `unmap_exact` (creator case) hold initially -/
+example : Idle (G.init id) 0 ∧ (G.init id).hs 0 = none ∧ (G.init id).os.shmNames 0 = none ∧
+    (G.init id).os.semNames (.lock 0) = none := ⟨⟨rfl, rfl⟩, rfl, rfl, rfl⟩
+
+set_option maxRecDepth 1000000 in
+/-- `first_open_race_partial` is not vacuous: 111 of the 792 interleavings of 5 + 7 steps have
+    thread 0 first and avoid both windows -/
+example : (interleavings 12 5).length = 792 ∧ ((interleavings 12 5).filter avoidsWindows).length = 111 := by
+  decide +kernel
+
+/-- `QuietRun` on the lock is satisfiable with real work: a follower in the middle of its `p_shm_new`
+    (OPEN mode on the lock) is quiet -/
+example : ∀ st : SemNewSt, st.mode = .open → st.pc = .excl → Call.quiet (.lock 0) (.shmNew 1 { key := 0, req := 0, ro := false, size := 0, pc := .sem st }) := by
+  intro st hm hp
+  simp [Call.quiet, SemNewSt.mayUnlink, hm, hp]
 
 end PV.IPC.C07
